@@ -387,6 +387,21 @@ def match_events(model, events, observed, now):
     return rec(model, 0, 0)
 
 
+def match_events_path(model, events, observed, now):
+    """Like match_events, but returns (model, [chosen pattern per event]) or None."""
+    def rec(m, i, pos, path):
+        if i == len(events):
+            return (m, path) if pos == len(observed) else None
+        for pat, m2 in m.alternatives(events[i], now):
+            n = len(pat)
+            if pos + n <= len(observed) and all(tok_match(pat[j], observed[pos + j]) for j in range(n)):
+                r = rec(m2, i + 1, pos + n, path + [pat])
+                if r is not None:
+                    return r
+        return None
+    return rec(model, 0, 0, [])
+
+
 def describe_expected(model, events, now):
     out = []
     m = model
